@@ -23,6 +23,7 @@ def oracle(ctx, tr):
     granted = False
     nontrivial = False
     user_of_session = None
+    asked_user = None      # username of the outstanding keyboard-interactive query (check_auth_interactive)
     for i, (st, r) in enumerate(zip(tr["steps"], tr["real"])):
         sent = L.sent_list(r)
         success = any(m == b"\x34" for m in sent)
@@ -31,6 +32,9 @@ def oracle(ctx, tr):
             pa = L.parse_auth(st["payload"])
             if pa is not None and user_of_session is None and L.cred_cbs(r):
                 user_of_session = pa[0]
+        for c in L.cb_list(r):
+            if c.startswith("interactive("):
+                asked_user = L.cb_user(c)
         if success or flipped:
             nontrivial = True
             case = L.describe(tr, i)
@@ -45,6 +49,19 @@ def oracle(ctx, tr):
                 ctx.fail("success-without-approval:" + (",".join(consulted) or "no-callback"), case,
                          "USERAUTH_SUCCESS / is_authenticated() although no callback of this step returned "
                          "AUTH_SUCCESSFUL; callbacks %r, env %r" % (L.cb_list(r), {k: st["env"].get(v) for k, v in CB_ENV.items()}))
+            # the username the server reports as authenticated must be the one THIS connection's approving callback
+            # was asked about (for an info response: the user the outstanding interactive query was made for)
+            for name, c in approving:
+                u = L.cb_user(c) if name != "iresponse" else asked_user
+                rep = r.get("username")
+                if name == "iresponse" and asked_user is None:
+                    # unsolicited info response: check_auth_interactive_response has no username argument and no
+                    # query was ever made; approving it is the application's own decision about the pinned name
+                    ctx.dist("granted:unsolicited-info-response")
+                    continue
+                if rep not in (None, "err") and (u or "None") != rep:
+                    ctx.fail("authenticated-as-a-user-nobody-approved", case,
+                             "get_username() = %s, but the approving callback %s concerned %s" % (rep, name, u))
             for name, c in approving:
                 ctx.dist("granted:" + name)
                 if st["ptype"] == 50:
@@ -145,6 +162,63 @@ def probe_then_sign_sessions(rng, tables):
     return makers
 
 
+def outstanding_sessions(rng, tables):
+    """user A leaves something outstanding (interactive query / key probe / GSS exchange), possibly fails another
+    method, then user B shows up with a probe / query / plain request, then the outstanding exchange is completed
+    with an approving answer"""
+    S = L.S
+    makers = []
+    key = L.client_keys()[0][0]
+    for start in ("interactive", "probe", "gss"):
+        for middle in (None, "none-fails", "password-fails", "password-partial"):
+            for intruder in ("probe", "interactive", "none", "same-user-probe"):
+                for finish in ("iresponse-ok", "mic-ok", "signed-ok"):
+                    if (start, finish) not in (("interactive", "iresponse-ok"), ("gss", "mic-ok"), ("probe", "signed-ok"),
+                                               ("probe", "iresponse-ok"), ("interactive", "signed-ok")):
+                        continue
+
+                    def mk(sid, start=start, middle=middle, intruder=intruder, finish=finish):
+                        gen = L.Gen(rng, "c14", tables)
+                        a = b"bob"
+                        b = b"alice" if intruder != "same-user-probe" else a
+                        q = ("query", "t", "i", [("Password: ", False)])
+                        steps = [L.mk_step(gen, 5, S(b"ssh-userauth"))]
+                        if start == "interactive":
+                            steps.append(L.mk_step(gen, 50, S(a, b"ssh-connection", b"keyboard-interactive", b"", b""),
+                                                   {"r_inter": q}))
+                        elif start == "probe":
+                            steps.append(L.pk_step(gen, sid, a, key, "ssh-ed25519", False, 0))
+                        else:
+                            steps.append(L.mk_step(gen, 50, S(a, b"ssh-connection", b"gssapi-with-mic", 1, b"OID"),
+                                                   {"gss_enabled": True, "mech_ok": True}))
+                        if middle == "none-fails":
+                            steps.append(L.mk_step(gen, 50, S(a, b"ssh-connection", b"none"), {"r_none": 2}))
+                        elif middle:
+                            steps.append(L.mk_step(gen, 50, S(a, b"ssh-connection", b"password", False, b"x"),
+                                                   {"r_password": 2 if middle == "password-fails" else 1}))
+                        if intruder in ("probe", "same-user-probe"):
+                            steps.append(L.pk_step(gen, sid, b, key, "ssh-ed25519", False, 0))
+                        elif intruder == "interactive":
+                            steps.append(L.mk_step(gen, 50, S(b, b"ssh-connection", b"keyboard-interactive", b"", b""),
+                                                   {"r_inter": q}))
+                        else:
+                            steps.append(L.mk_step(gen, 50, S(b, b"ssh-connection", b"none"), {"r_none": 2}))
+                        if finish == "iresponse-ok":
+                            steps.append(L.mk_step(gen, 61, S(1, b"bobs-password"), {"r_iresp": 0}))
+                        elif finish == "mic-ok":
+                            steps.append(L.mk_step(gen, 61, S(b"tok"), {"gss_enabled": True, "accept": ("token", None),
+                                                                        "r_iresp": 0}))
+                            steps.append(L.mk_step(gen, 66, S(b"mic"), {"gss_enabled": True, "mic_ok": True, "r_gssmic": 0}))
+                        else:
+                            steps.append(L.pk_step(gen, sid, a, key, "ssh-ed25519", True, 0))
+                        for s_ in steps:
+                            s_["meta"]["scenario"] = "outstanding:" + start
+                        return steps
+
+                    makers.append((False, mk))
+    return makers
+
+
 def run(ctx):
     ctx.rule = ("random scripted sessions of 1-12 messages weighted towards publickey (3 key types, 5 algorithms; "
                 "signatures: valid / other session / other user / other service / other algorithm / other key / wrong "
@@ -152,7 +226,9 @@ def run(ctx):
                 "responses, gssapi-with-mic and gssapi-keyex over a stub GSS context, callbacks returning "
                 "success/partial/failure/odd codes; plus both GSS methods walked to the end for every callback result, and key "
                 "probes followed by signed requests for the same / another key / another algorithm / a bad signature with "
-                "the application's answer varying per call (probe: success|partial, then success|partial|failure). "
+                "the application's answer varying per call (probe: success|partial, then success|partial|failure); "
+                "cross-user interleavings around an outstanding interactive query / key probe / GSS exchange (user A starts, "
+                "optionally fails another method, user B probes / queries / asks, the outstanding exchange completes). "
                 "distinct = distinct (message, outcome) sequences; non-trivial = the session contains a USERAUTH_SUCCESS")
     ctx.trust("the raw-client harness (pv/lib_authsrv.py)",
               "signature schemes (cryptography / nacl): a signature verifies only for the data and key it was made "
@@ -164,7 +240,9 @@ def run(ctx):
     ctx.build(extra_modules=["PV.Model.AuthServerDriver"])
     makers = gss_sessions(ctx.rng, tables)
     makers += probe_then_sign_sessions(ctx.rng, tables)
-    makers += L.profile_makers(ctx, "c14", 600 if ctx.thorough else 150, tables)
+    om = outstanding_sessions(ctx.rng, tables)
+    makers += om if ctx.thorough else ctx.rng.sample(om, 40)
+    makers += L.profile_makers(ctx, "c14", 600 if ctx.thorough else 110, tables)
     traces = L.run_sessions(ctx, "C14", makers)
     L.compare_traces(ctx, traces, "C14")
     mic_steps = 0
